@@ -16,10 +16,20 @@ theorem C08_unresolved_ranges_reviewed : mapRangeUnresolved = reviewedNonMap := 
 
 theorem C08_no_ambient_nondeterminism : ambientUses = [] := by rfl
 
-/-- who mutates the oracle's process-global cache / aggregator without a CheckTx guard: the block
-hooks and (re)initialisation, which never run on the check state — and UpdateParams (F-08a). -/
-theorem C08_unguarded_cache_writers :
-    oracleUnguardedTxWriters =
-    ["x/oracle/keeper/msg_server_update_params.go:msgServer.UpdateParams:cs.AddCache:unguarded"] := by rfl
+/-- No message handler (anything outside the EndBlocker and the (re)initialisation in single.go, which
+never run on the check state) writes the oracle's process-global cache / aggregator without an
+`IsCheckTx` guard. This is the source-level fact `C08_checktx_does_not_touch_deliver_state` models;
+re-introducing an unguarded `cs.AddCache` in a handler (F-08a) makes the list non-empty. -/
+theorem C08_unguarded_cache_writers : oracleUnguardedTxWriters = [] := by rfl
+
+/-- the handler-side writers the model covers (`updateParamsHandler`, `registerTokenHandler`,
+`createPriceHandler`), each with the guard the model gives it: cache writes inside `if !ctx.IsCheckTx()`,
+aggregator writes on the context GetAggregatorContext(ctx) hands out (the CheckTx copy on the check state) -/
+theorem C08_guarded_cache_writers : oracleGuardedTxWriters = [
+    "x/oracle/keeper/msg_server_create_price.go:msgServer.CreatePrice:agc.NewCreatePrice:mode-dispatched",
+    "x/oracle/keeper/msg_server_create_price.go:msgServer.CreatePrice:cs.AddCache:checktx-guarded",
+    "x/oracle/keeper/msg_server_create_price.go:msgServer.CreatePrice:cs.RemoveCache:checktx-guarded",
+    "x/oracle/keeper/msg_server_update_params.go:msgServer.UpdateParams:cs.AddCache:checktx-guarded",
+    "x/oracle/keeper/params.go:Keeper.RegisterNewTokenAndSetTokenFeeder:cs.AddCache:checktx-guarded"] := by rfl
 
 end ExoVerif.Det
